@@ -68,13 +68,18 @@ def rule_p3(ctx: Ctx, m: SharedModel) -> None:
                     arg = kw.value
             if arg is None:
                 raise AnalysisError(f"{fi.where}: cannot find the argument initialising {fld}")
-            if fresh_expr(fi, arg):
+            fr = fresh_expr(fi, arg, repo)
+            if fr is True:
                 ctx.ok("C02-P3", fi.where, f"field {fld} initialised with a fresh object `{unparse(arg)}` at the creating call", call, fi)
-            else:
+            elif fr is False:
                 ctx.violation("C02-P3", fi, call, f"field {fld} is initialised from `{unparse(arg)}`, which is not created at the call: level caches of different classes would share state")
+            else:
+                raise AnalysisError(f"{fi.where}: whether `{unparse(arg)[:50]}` (initial value of {fld}) is a fresh object is not decided")
 
 
-def fresh_expr(fi: FuncInfo, arg: ast.AST) -> bool:
+def fresh_expr(fi: FuncInfo, arg: ast.AST, repo=None, depth: int = 0):
+    """True: a new object is created at this point; False: a reference to state that outlives the call (class / module
+    attribute, parameter, default value); None: unknown."""
     if isinstance(arg, (ast.List, ast.Dict, ast.Set, ast.ListComp, ast.DictComp, ast.SetComp)):
         return True
     if isinstance(arg, ast.Call):
@@ -83,11 +88,29 @@ def fresh_expr(fi: FuncInfo, arg: ast.AST) -> bool:
             return True
         if cn and cn[-1] in ("copy", "deepcopy"):
             return True
+        # a helper whose every return is a fresh object
+        if repo is not None and depth < 2:
+            cands, exact = repo.resolve_call(fi, arg)
+            if exact and len(cands) == 1:
+                h = cands[0]
+                rets = [n for n in walk_no_nested(h.node) if isinstance(n, ast.Return) and n.value is not None]
+                if rets and all(fresh_expr(h, r.value, repo, depth + 1) is True for r in rets) and not any("cache" in d for d in h.decorators):
+                    return True
+        return None
     if isinstance(arg, ast.Name):
+        if arg.id in fi.params:
+            return False
         # a local bound (once) to a fresh display inside this function
         vals = [n.value for n in walk_no_nested(fi.node) if isinstance(n, ast.Assign) and len(n.targets) == 1 and isinstance(n.targets[0], ast.Name) and n.targets[0].id == arg.id]
-        return len(vals) == 1 and fresh_expr(fi, vals[0]) and arg.id not in fi.params
-    return False
+        if len(vals) == 1:
+            return fresh_expr(fi, vals[0], repo, depth)
+        return None
+    if isinstance(arg, ast.Attribute):
+        ch = attr_chain(arg)
+        if ch and ch[0] in ("cls", "self", "Av", "AvBase"):
+            return False  # state that outlives the call
+        return None
+    return None
 
 
 QUERY_EXEMPT = {"__new__", "clear_cache"}
@@ -136,7 +159,7 @@ def rule_p4(ctx: Ctx, m: SharedModel) -> None:
         if public:
             ctx.violation("C02-P4", fi, fi.node, f"public method {fi.name} writes the level cache directly")
         elif not entry and fi.parent is None:
-            ctx.violation("C02-P4", fi, fi.node, f"{fi.name} writes the level cache but is not called from the ensure step")
+            raise AnalysisError(f"{fi.where}: writes the level cache but no direct call of it was found (dynamic dispatch?); whether it is reached only through the ensure step is not decided")
         else:
             ctx.ok("C02-P4", w, f"level-cache writer reached only via {sorted(set(e.split(':')[-1] for e in entry))}", fi.node, fi)
 
@@ -164,14 +187,21 @@ def rule_p5(ctx: Ctx, m: SharedModel) -> None:
             lookups.append(("item", unparse(node.slice), node))
         if isinstance(node, ast.Compare) and len(node.ops) == 1 and isinstance(node.ops[0], (ast.In, ast.NotIn)) and is_map(node.comparators[0]):
             lookups.append(("in", unparse(node.left), node))
+        if isinstance(node, ast.NamedExpr) and isinstance(node.value, ast.Call) and isinstance(node.value.func, ast.Attribute) and node.value.func.attr == "get" and is_map(node.value.func.value):
+            got_var[node.target.id] = node
         if isinstance(node, (ast.Assign, ast.AnnAssign)) and node.value is not None:
-            tgt = node.targets[0] if isinstance(node, ast.Assign) else node.target
-            if isinstance(tgt, ast.Subscript) and is_map(tgt.value):
-                stores.append((unparse(tgt.slice), unparse(node.value), node))
-            if isinstance(tgt, ast.Name) and isinstance(node.value, ast.Call) and call_name(node.value) and call_name(node.value)[-1] == "__new__":
-                creations.append((tgt.id, node))
-            if isinstance(tgt, ast.Name) and isinstance(node.value, ast.Call) and isinstance(node.value.func, ast.Attribute) and node.value.func.attr == "get" and is_map(node.value.func.value):
-                got_var[tgt.id] = node
+            tgts = node.targets if isinstance(node, ast.Assign) else [node.target]
+            names_here = [t.id for t in tgts if isinstance(t, ast.Name)]
+            is_creation = isinstance(node.value, ast.Call) and call_name(node.value) and call_name(node.value)[-1] == "__new__"
+            for tgt in tgts:
+                if isinstance(tgt, ast.Subscript) and is_map(tgt.value):
+                    # `x = M[k] = <new>`: the stored value is the created object, known under the sibling name
+                    sval = names_here[0] if (is_creation and names_here) else unparse(node.value)
+                    stores.append((unparse(tgt.slice), sval, node))
+                if isinstance(tgt, ast.Name) and is_creation:
+                    creations.append((tgt.id, node))
+                if isinstance(tgt, ast.Name) and isinstance(node.value, ast.Call) and isinstance(node.value.func, ast.Attribute) and node.value.func.attr == "get" and is_map(node.value.func.value):
+                    got_var[tgt.id] = node
         if isinstance(node, ast.Return) and node.value is not None:
             returns.append(node)
     if not lookups:
@@ -196,8 +226,11 @@ def rule_p5(ctx: Ctx, m: SharedModel) -> None:
         ctx.violation("C02-P5", new, snode, f"miss path stores `{sval}` and returns {ret_txt}; both must be the new instance `{cvar}`")
         return
     call = cnode.value
-    if len(call.args) < 2 or unparse(call.args[1]) != key:
-        ctx.violation("C02-P5", new, cnode, f"new instance is created for `{unparse(call.args[1]) if len(call.args) > 1 else '?'}` but registered under `{key}`")
+    made_for = unparse(call.args[1]) if len(call.args) > 1 else next((unparse(k.value) for k in call.keywords if k.arg == "basis"), None)
+    if made_for is None:
+        raise AnalysisError(f"{new.where}: the basis the new instance is created for is not recognised")
+    if made_for != key:
+        ctx.violation("C02-P5", new, cnode, f"new instance is created for `{made_for}` but registered under `{key}`")
         return
     # hit path: the looked-up object itself is returned
     hit = [t for t in ret_txt if t in got_var or any(t == unparse(n) for kind, _k, n in lookups if kind == "item")]
@@ -215,6 +248,9 @@ def rule_p5(ctx: Ctx, m: SharedModel) -> None:
                 if isinstance(st, ast.If) and unparse(st.test) in (f"{v} is None", f"not {v}") and st.body and isinstance(st.body[-1], ast.Return) and not any(sub is r for sub in ast.walk(st)):
                     guarded = True
                 if isinstance(st, ast.If) and unparse(st.test) in (f"{v} is not None", v) and any(sub is r for sub in st.body):
+                    guarded = True
+                if isinstance(st, ast.If) and isinstance(st.test, ast.Compare) and isinstance(st.test.left, ast.NamedExpr) and st.test.left.target.id == v and len(st.test.ops) == 1 \
+                        and isinstance(st.test.ops[0], ast.IsNot) and is_const(st.test.comparators[0], None) and any(sub is r for sub in st.body):
                     guarded = True
         elif any(t == unparse(n) for kind, _k, n in lookups if kind == "item"):
             for st in walk_no_nested(new.node):
